@@ -26,11 +26,17 @@ def main():
             checks = a.split("=", 1)[1].split(",")
         if a == "--all":
             checks = [f"C{i:02d}" for i in range(1, 21)]
+    base = "HEAD"
+    for a in sys.argv[2:]:
+        if a.startswith("--base="):
+            base = a.split("=", 1)[1]
+        if a.startswith("--dest="):
+            dest_name = a.split("=", 1)[1]
     scratch = tempfile.mkdtemp(prefix="vf_seed_")
     wt = os.path.join(scratch, "wt")
     rep = {"property": pid[:3], "source": src}
     try:
-        assert sh(f"git -C /repo worktree add -q --detach {wt} HEAD").returncode == 0
+        assert sh(f"git -C /repo worktree add -q --detach {wt} {base}").returncode == 0
         r = sh(f"git -C {wt} apply --whitespace=nowarn {src}/patch.diff")
         rep["patch_applies"] = r.returncode == 0
         if r.returncode != 0:
@@ -40,7 +46,10 @@ def main():
         rep["repo_tests"] = t.stdout.strip()
         rep["repo_tests_pass"] = " passed" in t.stdout and "failed" not in t.stdout and "error" not in t.stdout
         d1 = sh(f"cd {src} && PYTHONPATH={wt} timeout 600 /venv/bin/python demo.py")
-        d0 = sh(f"cd {src} && PYTHONPATH=/repo timeout 600 /venv/bin/python demo.py")
+        wt0 = os.path.join(scratch, "wt0")
+        assert sh(f"git -C /repo worktree add -q --detach {wt0} {base}").returncode == 0
+        d0 = sh(f"cd {src} && PYTHONPATH={wt0} timeout 600 /venv/bin/python demo.py")
+        sh(f"git -C /repo worktree remove --force {wt0}")
         rep["demo_rc_with_change"], rep["demo_rc_without_change"] = d1.returncode, d0.returncode
         rep["demo_tail_with_change"] = (d1.stdout + d1.stderr).strip().splitlines()[-3:]
         confirmed = rep["repo_tests_pass"] and d1.returncode == 1 and d0.returncode == 0
@@ -67,9 +76,9 @@ def main():
                 pass
             meta["property"] = pid[:3]
             meta["confirmed_by_me"] = {
-                "repo_commit": sh("git -C /repo rev-parse --short HEAD").stdout.strip(),
+                "repo_commit": sh(f"git -C /repo rev-parse --short {base}").stdout.strip(),
                 "ran": [f"git worktree add <scratch> HEAD && git apply patch.diff", f"pytest in scratch: {rep['repo_tests']}",
-                        f"PYTHONPATH=<scratch> python demo.py -> rc {d1.returncode}", f"PYTHONPATH=/repo python demo.py -> rc {d0.returncode}"],
+                        f"PYTHONPATH=<scratch> python demo.py -> rc {d1.returncode}", f"PYTHONPATH=<scratch worktree of the same commit without the patch> python demo.py -> rc {d0.returncode}"],
                 "quick_checks_against_it": rep["checks"],
             }
             json.dump(meta, open(os.path.join(dst, "meta.json"), "w"), indent=1)
